@@ -4,6 +4,7 @@ import (
 	"encoding/json"
 	"fmt"
 	"os"
+	"strings"
 	"testing"
 
 	"pgregory.net/rapid"
@@ -34,6 +35,9 @@ func check(c *reqcase.Case, rq *reqcase.ReqSpec, ob reqcase.Obs) (string, bool) 
 	}
 	nt := rq.Script.NonTrivial() || d.Marker == "" || !d.PayloadOK
 	if ob.Delivered == 0 {
+		if c.WideOwnership && ownedByAll(rq.Subject) {
+			return fmt.Sprintf("the service owns every resource (SetOwnedResources with \">\") but no subscription of it receives the request %s: it stays unanswered", rq.Subject), nt
+		}
 		// no subscription of the service matches this subject: not a request to this service
 		return "", false
 	}
@@ -60,6 +64,25 @@ func check(c *reqcase.Case, rq *reqcase.ReqSpec, ob reqcase.Obs) (string, bool) 
 		}
 	}
 	return "", nt
+}
+
+// ownedByAll: a request subject (type and at least one more token, none empty) that a service
+// owning ">" for resources and access must be subscribed to.
+func ownedByAll(subject string) bool {
+	toks := strings.Split(subject, ".")
+	if len(toks) < 2 {
+		return false
+	}
+	for _, t := range toks {
+		if t == "" || t == ">" || t == "*" || strings.ContainsAny(t, " \t\r\n") {
+			return false
+		}
+	}
+	switch toks[0] {
+	case "get", "call", "auth", "access":
+		return true
+	}
+	return false
 }
 
 func TestPropSequential(t *testing.T) {
